@@ -429,13 +429,14 @@ fn explore(ctx: &Ctx) -> Outcome {
     cov.traces_validated_against_impl = rep.transitions;
     cov.evaluations = rep.transitions;
     cov.distinct_nontrivial = rep.states;
-    cov.exhaustive = rep.depth_completed >= max_depth || rep.fixpoint;
+    cov.exhaustive = (rep.depth_completed >= max_depth || rep.fixpoint) && rep.unexpanded_due_to_cap == 0;
     cov.rule = "explicit-state BFS: node = content of the archive (bytes, strings, pointers, pending c-strings, labels), transition = one real API call on a BinArchive rebuilt by replaying the shortest history; oracle = content model in lock-step (acceptance, every observable, re-parse of the serialized image, image equal to the image of the same content built from scratch); distinct_nontrivial = distinct states reached".into();
     cov.samples = rep.sample_histories.iter().map(|h| json!({"history": op_json(h)})).collect();
     if cov.samples.is_empty() {
         cov.samples.push(json!({"history": []}));
     }
     cov.extra.insert("depth_completed".into(), json!(rep.depth_completed));
+    cov.extra.insert("frontier_states_unexpanded_due_to_state_cap".into(), json!(rep.unexpanded_due_to_cap));
     cov.extra.insert("full_alphabet_below_depth".into(), json!(full_depth));
     cov.extra.insert("s_max".into(), json!(s_max));
     cov.extra.insert("init_states".into(), json!(sys.inits.len()));
